@@ -71,6 +71,22 @@ CLAIMED = {
                 "libstdc++'s (app=1, ate=2, binary=4, in=8, out=16, trunc=32), read back from clang's constant evaluation.",
         "design": "4/C14",
     },
+    "C20": {
+        "rules": "R-NARROW (width domain + dominating refusal), R-ORDER, R-WRITESET, R-MUSTCALL",
+        "text": "Static analysis of every narrowing conversion on the writers' serialisation paths: each explicit cast, "
+                "bit-field store and narrow accumulation is dominated by a refusal bounding the value by the destination's "
+                "capacity (clang CFG must-dataflow + bit-width domain + linear consequence for guarded sums). Volumes: "
+                "member size refused above the 31-bit block length before it is recorded, the recorded field is the only "
+                "thing written as block length, offsets accumulated in 64 bits and refused above 32, every refusal "
+                "precedes construction of the output FileWriter and nothing that can refuse runs after it. CLM: data "
+                "offsets, member count, names longer than the 8-byte field. Size prefixes in every instantiated width. "
+                "Frames: layer-count mismatch refused before the first write. The implication 'does not fit => error' is "
+                "a dominance fact on every path; the guards' antecedents are never reached by the test-suite.",
+        "note": "Declined: running with real multi-GiB inputs; VOL name/index section lengths beyond 2^31 bytes (not in "
+                "the property's list). The int32 IndexEntry::fileSize is treated as 31 value bits only after the "
+                "single-guarded-store obligations are discharged.",
+        "design": "4/C20",
+    },
 }
 
 PENDING_REASON = "check not built yet in this revision (planned: DESIGN.md section 4 lists the structural clauses); not claimed until its rules run clean on the tree"
